@@ -36,7 +36,9 @@ FIXED_EXPECT = {"module_cycle_with_definitions": ["x", "x.in_a", "x.in_b"], "sel
 
 def finding_classes(meta) -> set[str]:
     ks = set()
-    if meta["project"] == "reexport_cycle":
+    # a cycle of re-exports of one name (also through star imports: pkg/__init__ `from .b import *`, b `from pkg import f`):
+    # the resolver recurses without bound; known only when the model predicts the non-termination (checked by the caller)
+    if meta["project"] == "reexport_cycle" or str(meta["multi"].get("raised") or "").startswith("RecursionError"):
         ks.add("KF_C06_4")
     for r in meta["refs"]:
         if r["form"] == "from_as":
